@@ -80,7 +80,7 @@ func (c04) NumCases(tier string) int {
 func (c04) Exhaustive(tier string) bool { return tier == "thorough" }
 
 func (c04) Rule() string {
-	return fmt.Sprintf("exhaustive: all %d depth-1 numeric trees over 5 integer and 4 dyadic float constants, 3 row leaves and 3 constant calls, and (thorough: all %d, quick: 30000 sampled) depth-2 trees with one deep side; sampled: comparisons and Boolean combinations with constant sub-trees, re-association chains (x op c1 op c2 op c3.. for + and * incl. text concatenation), constant function calls, text expressions. Each evaluated with Execute and ExecuteBatch before and after Optimize() on 7 pairs; a sample also through BuildPlan against the reference evaluator. Non-trivial: the rewrite changed the expression's String(); distinct by expression text.", len(c04Depth1), c04OneSided())
+	return fmt.Sprintf("exhaustive: all %d depth-1 numeric trees over 5 integer and 4 dyadic float constants, 3 row leaves and 3 constant calls, and (thorough: all %d, quick: 30000 sampled) depth-2 trees with one deep side; sampled: comparisons and Boolean combinations with constant sub-trees, re-association chains (x op c1 op c2 op c3.. for + and * incl. text concatenation), constant function calls, text expressions. Each evaluated with Execute (pair by pair) and ExecuteBatch (the 7 pairs in chunks of 3, 3 and 1) before and after Optimize(); a sample also through BuildPlan against the reference evaluator. Non-trivial: the rewrite changed the expression's String(); distinct by expression text.", len(c04Depth1), c04OneSided())
 }
 
 func (c04) Assumptions() []string {
@@ -322,17 +322,29 @@ func c04ExecBatch(e kvql.Expression, ps []refstore.Pair) (vals []string, err str
 			err = fmt.Sprint("panic: ", r)
 		}
 	}()
-	chunk := make([]kvql.KVPair, len(ps))
-	for i, p := range ps {
-		chunk[i] = kvql.NewKVPStr(p.K, p.V)
-	}
-	vs, er := e.ExecuteBatch(chunk, kvql.NewExecuteCtx())
-	if er != nil {
-		return nil, er.Error()
-	}
-	out := make([]string, len(vs))
-	for i, v := range vs {
-		out[i] = drive.Norm(v)
+	// the pairs reach the expression in several chunks, two of them of equal length, the way a
+	// scan feeds a filter: state kept inside the expression between chunks (a literal's vector,
+	// a compiled pattern) shows as a difference from the pair-by-pair evaluation
+	var out []string
+	for lo := 0; lo < len(ps); lo += 3 {
+		hi := lo + 3
+		if hi > len(ps) {
+			hi = len(ps)
+		}
+		chunk := make([]kvql.KVPair, hi-lo)
+		for i, p := range ps[lo:hi] {
+			chunk[i] = kvql.NewKVPStr(p.K, p.V)
+		}
+		vs, er := e.ExecuteBatch(chunk, kvql.NewExecuteCtx())
+		if er != nil {
+			return nil, er.Error()
+		}
+		if len(vs) != len(chunk) {
+			return nil, fmt.Sprintf("ExecuteBatch returned %d values for %d pairs", len(vs), len(chunk))
+		}
+		for _, v := range vs {
+			out = append(out, drive.Norm(v))
+		}
 	}
 	return out, ""
 }
